@@ -594,9 +594,9 @@ def correspond(ctx):
                 spec_failures=[], trusted_base=[], assumptions=[], explanation='', extra={})
   impl = Impl()
   n_hist = ctx.budget(200, 2000)
-  pool = gen_pool(rng, *ctx.budget((5, 3), (12, 8)))
+  pool = gen_pool(rng, *ctx.budget((4, 2), (12, 8)))
   structs = []
-  while len(structs) < ctx.budget(7, 14):
+  while len(structs) < ctx.budget(6, 14):
     s = gen_structure(rng)
     if s not in structs:
       check_leaf_order(s[1]); structs.append(s)
@@ -668,8 +668,9 @@ def correspond(ctx):
       checks.append(('updF', (case, i, reals[i], reals[i + 1], fracs[i + 1])))
     lines.append(hist_line('R', case, case['lo'], case['hi']))
     checks.append(('histR', (case, fracs[-1])))
-    lines.append(hist_line('F', case, case['lo'], case['hi']))
-    checks.append(('histF', (case, reals[-1])))
+    if h % 3 == 0:
+      lines.append(hist_line('F', case, case['lo'], case['hi']))
+      checks.append(('histF', (case, reals[-1])))
   t_hist = time.time() - t0
 
   # ---- std probes, normalize, pmap, validate ------------------------------------------------
